@@ -869,6 +869,10 @@ func genSession(r *coqfmt.Rand, id int, profile string) Case {
 		n := 3 + r.Intn(10)
 		for i := 0; i < n; i++ {
 			st := Step{K: "send", Count: r.Intn(6), Size: []int{0, 1, 100, 5000, 200000, 3000000}[r.Pick(4, 4, 6, 4, 2, 1)], Ext: r.Chance(1, 3)}
+			if r.Chance(1, 3) { // buffer-size boundaries (the discard loop works in 1 KiB chunks)
+				b := []int{255, 256, 512, 1023, 1024, 1025, 2047, 2048, 2049, 3072, 4096, 8192, 65535, 65536, 65537, 1 << 20}
+				st.Size = b[r.Intn(len(b))]
+			}
 			switch r.Intn(16) {
 			case 0:
 				st.Cmd, st.Variant = "headers", "extend"
